@@ -36,6 +36,7 @@ SPEC = {
     "harnesses": [
         {"name": "c06_kernel_s2n", "path": MOD, "tiers": Q, "role": "safe-to-notar decision kernel", "stubs": STUBS, "covers": 4, "timeout": {"quick": 600, "thorough": 1500}, "mem_gb": 10,
          "functions": ["SlotState::check_safe_to_notar", "SlotState::notify_parent_known"], "bounds": "3 validators with symbolic 16-bit stakes, each holding notar(A) | notar(B) | skip | nothing, the two others possibly a skip-fallback vote on top of their notar vote; parent of A unknown / known / certified; A pending or not; one call"},
+    ] + ([{"name": n, "path": MOD, "tiers": Q, "role": "probe", "stubs": STUBS, "covers": 2, "timeout": 900, "mem_gb": 12, "functions": [], "bounds": ""} for n in ("c06_s2s_light_skip", "c06_s2s_light_sfallback")] if __import__("os").environ.get("VERIF_EXPERIMENTAL") else []) + [
         # The trigger harnesses (c06_last_*, c06_kernel_s2s_*) exist in kani_c06.rs but exceed the time / memory caps
         # (one add_vote with the safe-to-notar re-evaluation loops: > 400 s of symbolic execution, measured) and are not registered.
     ],
